@@ -37,7 +37,7 @@ def _innermost_topsim_frame(exc):
             'text': best.line}
 
 
-def build(case, d, tr, bound=None, permute_seed=None):
+def build(case, d, tr, bound=None, permute_seed=None, shared=None):
     use_repo()
     hooks.install()
     import topsim.core.simulation as S
@@ -58,7 +58,14 @@ def build(case, d, tr, bound=None, permute_seed=None):
     extras = dl.get('extras') if dl.get('mode') == 'fixed' else None
     dm = None
     if dl.get('mode') == 'model':
-        dm = DelayModel(dl['prob'], dl['dist'], DelayModel.DelayDegree[dl['degree']], dl['seed'])
+        key = (dl['prob'], dl['dist'], dl['degree'], dl['seed'])
+        if shared is not None and shared.get('dm_key') == key:
+            dm = shared['dm']
+        else:
+            dm = DelayModel(dl['prob'], dl['dist'], DelayModel.DelayDegree[dl['degree']],
+                            dl['seed'])
+            if shared is not None:
+                shared['dm_key'], shared['dm'] = key, dm
 
     def on_plan(observation, plan, clock):
         tr.plans[observation.name] = {'plan': plan, 'clock': clock, 't': env.now,
@@ -81,7 +88,8 @@ def build(case, d, tr, bound=None, permute_seed=None):
         else:
             algo = QueueProcessing()
     else:
-        model = userext.StaticListPlanning('static', case['static'], dm, extras, on_plan)
+        model = userext.StaticListPlanning('static', case['static'], dm, extras, on_plan,
+                                           est_mode=case.get('static_est', 'duration'))
         algo = DynamicSchedulingFromPlan() if pairing == 'dynamic' else GreedySchedulingFromPlan()
     adv = case.get('adversary')
     advlog = []
@@ -117,11 +125,12 @@ def build(case, d, tr, bound=None, permute_seed=None):
                        scheduling=algo, delay=dm, timestamp=0)
     tr.attach(sim, env)
     tr.advlog = advlog
+    tr.has_adversary = bool(adv)
     return sim, env
 
 
 def run_case(case, bound=None, schedule=None, keep=False, check_plan=None, workdir=None,
-             driver=None):
+             driver=None, shared=None):
     """Run one case.  schedule: None -> start(); or a list [k, u1, u2, ...]
     meaning start(k), resume(u1), ... ; the last element may be 'end' =
     keep resuming one step at a time until is_finished().
@@ -136,7 +145,8 @@ def run_case(case, bound=None, schedule=None, keep=False, check_plan=None, workd
     hooks.set_trace(tr)
     sim = None
     try:
-        sim, env = build(case, d, tr, bound=bound, permute_seed=case.get('permute'))
+        sim, env = build(case, d, tr, bound=bound, permute_seed=case.get('permute'),
+                         shared=shared)
         try:
             if driver is not None:
                 res['driver'] = driver(sim, env, tr)
